@@ -21,7 +21,13 @@ def vexp(x):
     return np.array([np.exp(x[0]) * x[1], x[0] + np.sin(x[1]) * x[0]])
 
 
-FUNS = {'exp': np.exp, 'sin': np.sin, 'mexp': mexp, 'vexp': vexp}
+def wexp(x):
+    """exp that emits a Python warning on every evaluation (user functions do: overflow, deprecation, their own)"""
+    warnings.warn('noise from the user function')
+    return np.exp(x)
+
+
+FUNS = {'exp': np.exp, 'sin': np.sin, 'mexp': mexp, 'vexp': vexp, 'wexp': wexp}
 
 
 def build(fname, method, n, order, gen, shared=None, cls='Derivative'):
@@ -53,6 +59,17 @@ def observe(obj, x):
             val, info = obj(np.asarray(x) if isinstance(x, list) else x)
         except Exception as e:
             return ['exc', type(e).__name__]
+    return ['ok', encode(val), encode(info.f_value), encode(info.error_estimate), encode(info.final_step),
+            encode(info.index)]
+
+
+def observe_raw(obj, x):
+    """observe() without a warnings context of its own (the warnings machinery is process-global: a context entered by
+    the caller of one thread would hide what the other thread's user function emits)"""
+    try:
+        val, info = obj(np.asarray(x) if isinstance(x, list) else x)
+    except Exception as e:
+        return ['exc', type(e).__name__]
     return ['ok', encode(val), encode(info.f_value), encode(info.error_estimate), encode(info.final_step),
             encode(info.index)]
 
